@@ -107,7 +107,44 @@ def prog_lock_event(ns):
     return (n, len(rest) + (0 if first == "empty" else 1))  # always (4, 3)
 
 
+def prog_timed(ns):
+    """Waits with a time-out: a polling consumer (Queue.get(timeout)), a
+    producer that is sometimes slower than the time-out, Event.wait(timeout)
+    and a timed join.  Outcome: what was received, and whether any time-out
+    expired at all."""
+    q = ns.queue.Queue()
+    go = ns.threading.Event()
+    box = {"slow": False}
+
+    def producer():
+        if box["slow"]:
+            ns.time.sleep(0.03)
+        q.put("item")
+        go.wait(0.5)
+
+    outcome = []
+    for slow in (False, True):
+        box["slow"] = slow
+        t = ns.threading.Thread(target=producer)
+        t.start()
+        expired = 0
+        while True:
+            try:
+                x = q.get(timeout=0.005)
+                break
+            except ns.queue.Empty:
+                expired += 1
+                if expired > 1000:
+                    x = None
+                    break
+        go.set()
+        t.join(5)
+        outcome.append((x, min(expired, 1)))
+    return tuple(outcome)
+
+
 PROGRAMS = {
+    "timed": (prog_timed, False),
     "bounded_queue": (prog_bounded_queue, False),
     "sentinel_pool": (prog_sentinel_pool, True),
     "lock_event": (prog_lock_event, True),
